@@ -38,12 +38,12 @@ theorem scan_open_mid (ex : Nat → Bool) (i j : Nat) (mid post : List Ev) (o : 
 /-! ## the invariant -/
 
 structure Inv (c : Cfg) (s : St) : Prop where
-  lock : ∀ i, (s.pc i = .locked ∨ s.pc i = .sent ∨ s.pc i = .got) → s.holder = some i
-  held : ∀ i, s.holder = some i → (s.pc i = .locked ∨ s.pc i = .sent ∨ s.pc i = .got)
+  lock : ∀ i, (s.pc i = .locked ∨ s.pc i = .sent ∨ s.pc i = .got ∨ s.pc i = .relock) → s.holder = some i
+  held : ∀ i, s.holder = some i → (s.pc i = .locked ∨ s.pc i = .sent ∨ s.pc i = .got ∨ s.pc i = .relock)
   range : ∀ i, s.pc i ≠ .idle → i < c.n
   out : outstanding c s = [] ∨ ∃ i, outstanding c s = [i] ∧ s.pc i = .sent ∧ c.reads i = true
   opn : ∀ i, s.pc i = .sent → c.reads i = true → outstanding c s = [i]
-  gotOwn : ∀ i, (s.pc i = .got ∨ (s.pc i = .done ∧ c.reads i = true)) → s.got i = some i
+  gotOwn : ∀ i, (s.pc i = .got ∨ (s.pc i = .done ∧ c.reads i = true)) → s.err i = false → s.got i = some i
   tr : scan c.reads none s.trace = some (outstanding c s).head?
   trOwn : OwnReply s.trace
 
@@ -67,36 +67,43 @@ theorem upd_other {α : Type} (f : Nat → α) {i j : Nat} (v : α) (h : j ≠ i
 theorem inv_acquire (c : Cfg) (s s' : St) (i : Nat) (h : Inv c s) (hs : step c s (.acquire i) = some s') :
     Inv c s' := by
   simp only [step] at hs
-  split at hs <;> simp at hs
-  rename_i hc; subst hs
-  obtain ⟨hn, hidle, hnone⟩ := hc
-  have nobody : ∀ j, ¬ (s.pc j = .locked ∨ s.pc j = .sent ∨ s.pc j = .got) := by
-    intro j hj; have := h.lock j hj; rw [hnone] at this; cases this
-  refine ⟨?_, ?_, ?_, ?_, ?_, ?_, ?_, ?_⟩
-  · intro j hj
-    by_cases e : j = i
-    · subst e; rfl
-    · simp only [upd_other _ _ e] at hj; exact absurd hj (nobody j)
-  · intro j hj
-    simp only [Option.some.injEq] at hj
-    subst hj; simp [upd_same]
-  · intro j hj
-    by_cases e : j = i
-    · subst e; exact hn
-    · simp only [upd_other _ _ e] at hj; exact h.range j hj
-  · rcases h.out with h0 | ⟨j, _, hj, _⟩
-    · exact Or.inl h0
-    · exact absurd (Or.inr (Or.inl hj)) (nobody j)
-  · intro j hj _
-    by_cases e : j = i
-    · subst e; simp [upd_same] at hj
-    · simp only [upd_other _ _ e] at hj; exact absurd (Or.inr (Or.inl hj)) (nobody j)
-  · intro j hj
-    by_cases e : j = i
-    · subst e; simp [upd_same] at hj
-    · simp only [upd_other _ _ e] at hj; exact h.gotOwn j hj
-  · exact h.tr
-  · exact h.trOwn
+  split at hs
+  · rename_i hc
+    simp at hs; subst hs
+    obtain ⟨hn, hidle, hnone⟩ := hc
+    have nobody : ∀ j, ¬ (s.pc j = .locked ∨ s.pc j = .sent ∨ s.pc j = .got ∨ s.pc j = .relock) := by
+      intro j hj; have := h.lock j hj; rw [hnone] at this; cases this
+    refine ⟨?_, ?_, ?_, ?_, ?_, ?_, ?_, ?_⟩
+    · intro j hj
+      by_cases e : j = i
+      · subst e; rfl
+      · simp only [upd_other _ _ e] at hj; exact absurd hj (nobody j)
+    · intro j hj
+      simp only [Option.some.injEq] at hj
+      subst hj; simp [upd_same]
+    · intro j hj
+      by_cases e : j = i
+      · subst e; exact hn
+      · simp only [upd_other _ _ e] at hj; exact h.range j hj
+    · rcases h.out with h0 | ⟨j, _, hj, _⟩
+      · exact Or.inl h0
+      · exact absurd (Or.inr (Or.inl hj)) (nobody j)
+    · intro j hj _
+      by_cases e : j = i
+      · subst e; simp [upd_same] at hj
+      · simp only [upd_other _ _ e] at hj; exact absurd (Or.inr (Or.inl hj)) (nobody j)
+    · intro j hj
+      by_cases e : j = i
+      · subst e; simp [upd_same] at hj
+      · simp only [upd_other _ _ e] at hj; exact h.gotOwn j hj
+    · exact h.tr
+    · exact h.trOwn
+  · -- the re-acquisition of the mutated rule needs a free lock, but a caller at `relock` holds it
+    split at hs
+    · rename_i _ hc
+      have := h.lock i (Or.inr (Or.inr (Or.inr hc.1)))
+      rw [hc.2] at this; cases this
+    · simp at hs
 
 theorem inv_send (c : Cfg) (s s' : St) (i : Nat) (h : Inv c s) (hs : step c s (.send i) = some s') :
     Inv c s' := by
@@ -115,7 +122,7 @@ theorem inv_send (c : Cfg) (s s' : St) (i : Nat) (h : Inv c s) (hs : step c s (.
       if c.reads i then [i] else [] := by
     simp only [outstanding, hrep, List.filter_append, hflt, List.nil_append]
     cases hr : c.reads i <;> simp [List.filter, hr]
-  have others : ∀ j, j ≠ i → ¬ (s.pc j = .locked ∨ s.pc j = .sent ∨ s.pc j = .got) := by
+  have others : ∀ j, j ≠ i → ¬ (s.pc j = .locked ∨ s.pc j = .sent ∨ s.pc j = .got ∨ s.pc j = .relock) := by
     intro j e hj; have := h.lock j hj; rw [hold] at this; cases this; exact e rfl
   refine ⟨?_, ?_, ?_, ?_, ?_, ?_, ?_, ?_⟩
   · intro j hj
@@ -157,7 +164,8 @@ theorem inv_peer (c : Cfg) (s s' : St) (h : Inv c s) (hs : step c s .peer = some
   · rename_i r q hq
     simp at hs; subst hs
     have hout' : outstanding c
-        { s with reqQ := q, repQ := if c.reads r = true then s.repQ ++ [r] else s.repQ } = outstanding c s := by
+        { s with reqQ := q, repQ := if c.reads r = true then s.repQ ++ [r] else s.repQ,
+                 closed := s.closed || c.closes r } = outstanding c s := by
       simp only [outstanding, hq]
       cases hr : c.reads r <;> simp [List.filter, hr]
     refine ⟨h.lock, h.held, h.range, ?_, ?_, h.gotOwn, ?_, h.trOwn⟩
@@ -166,7 +174,7 @@ theorem inv_peer (c : Cfg) (s s' : St) (h : Inv c s) (hs : step c s .peer = some
     · rw [hout']; exact h.tr
 
 theorem inv_recv (c : Cfg) (s s' : St) (i : Nat) (h : Inv c s) (hs : step c s (.recv i) = some s') :
-    Inv c s' ∧ s'.got i = some i := by
+    Inv c s' ∧ (c.faulty i = false → s'.got i = some i) := by
   simp only [step] at hs
   split at hs
   · rename_i hc
@@ -174,7 +182,7 @@ theorem inv_recv (c : Cfg) (s s' : St) (i : Nat) (h : Inv c s) (hs : step c s (.
     split at hs
     · simp at hs
     · rename_i t w hq
-      simp at hs; subst hs
+      simp only [Option.some.injEq] at hs; subst hs
       have hopn := h.opn i hsent hreads
       have htw : t = i ∧ w = [] ∧ s.reqQ.filter c.reads = [] := by
         unfold outstanding at hopn
@@ -184,41 +192,59 @@ theorem inv_recv (c : Cfg) (s s' : St) (i : Nat) (h : Inv c s) (hs : step c s (.
       obtain ⟨ht, hw, hflt⟩ := htw
       subst ht; subst hw
       have hold : s.holder = some t := h.lock t (Or.inr (Or.inl hsent))
-      have others : ∀ j, j ≠ t → ¬ (s.pc j = .locked ∨ s.pc j = .sent ∨ s.pc j = .got) := by
+      have others : ∀ j, j ≠ t → ¬ (s.pc j = .locked ∨ s.pc j = .sent ∨ s.pc j = .got ∨ s.pc j = .relock) := by
         intro j e hj; have := h.lock j hj; rw [hold] at this; cases this; exact e rfl
-      have hout' : outstanding c
-          { s with pc := upd s.pc t .got, repQ := [], got := upd s.got t (some t),
-                   trace := s.trace ++ [Ev.rep t t] } = [] := by
-        simp [outstanding, hflt]
-      refine ⟨⟨?_, ?_, ?_, ?_, ?_, ?_, ?_, ?_⟩, by simp [upd_same]⟩
+      have hpc' : ∀ v : PC, v = .got ∨ v = .relock →
+          (v = .locked ∨ v = .sent ∨ v = .got ∨ v = .relock) ∧ v ≠ .idle ∧ v ≠ .sent := by
+        intro v hv; rcases hv with hv | hv <;> subst hv <;> simp
+      have hv : (if (c.faulty t && c.relock) = true then PC.relock else PC.got) = .got ∨
+          (if (c.faulty t && c.relock) = true then PC.relock else PC.got) = .relock := by
+        split <;> simp
+      generalize (if (c.faulty t && c.relock) = true then PC.relock else PC.got) = v at hv
+      obtain ⟨hv1, hv2, hv3⟩ := hpc' v hv
+      refine ⟨⟨?_, ?_, ?_, ?_, ?_, ?_, ?_, ?_⟩, ?_⟩
       · intro j hj
         by_cases e : j = t
         · subst e; exact hold
         · simp only [upd_other _ _ e] at hj; exact h.lock j hj
       · intro j hj
         have : j = t := by rw [hold] at hj; cases hj; rfl
-        subst this; simp [upd_same]
+        subst this; simpa [upd_same] using hv1
       · intro j hj
         by_cases e : j = t
         · subst e; exact h.range j (by rw [hsent]; simp)
         · simp only [upd_other _ _ e] at hj; exact h.range j hj
-      · exact Or.inl hout'
+      · exact Or.inl (by simp [outstanding, hflt])
       · intro j hj _
         by_cases e : j = t
-        · subst e; simp [upd_same] at hj
+        · subst e; simp only [upd_same] at hj; exact absurd hj hv3
         · simp only [upd_other _ _ e] at hj; exact absurd (Or.inr (Or.inl hj)) (others j e)
-      · intro j hj
+      · intro j hj hej
         by_cases e : j = t
-        · subst e; simp [upd_same]
-        · simp only [upd_other _ _ e] at hj ⊢; exact h.gotOwn j hj
+        · subst e
+          cases hf : c.faulty j
+          · simp [upd_same]
+          · simp [hf, upd_same] at hej
+        · have hej' : s.err j = false := by
+            cases hf : c.faulty t
+            · simpa [hf] using hej
+            · simpa [hf, upd_other _ _ e] using hej
+          have hg : (if c.faulty t = true then s.got else upd s.got t (some t)) j = s.got j := by
+            split
+            · rfl
+            · exact upd_other _ _ e
+          simp only [upd_other _ _ e] at hj
+          show (if c.faulty t = true then s.got else upd s.got t (some t)) j = some j
+          rw [hg]; exact h.gotOwn j hj hej'
       · show scan c.reads none (s.trace ++ [Ev.rep t t]) = _
-        rw [scan_append, h.tr, hopn, hout']
-        simp [scan, scanStep]
+        rw [scan_append, h.tr, hopn]
+        simp [scan, scanStep, outstanding, hflt]
       · intro j u hm
         simp only [List.mem_append, List.mem_singleton] at hm
         rcases hm with hm | hm
         · exact h.trOwn j u hm
         · cases hm; rfl
+      · intro hf; simp [hf, upd_same]
   · simp at hs
 
 theorem inv_release (c : Cfg) (s s' : St) (i : Nat) (h : Inv c s) (hs : step c s (.release i) = some s') :
@@ -227,7 +253,7 @@ theorem inv_release (c : Cfg) (s s' : St) (i : Nat) (h : Inv c s) (hs : step c s
   split at hs <;> simp at hs
   rename_i hc; subst hs
   obtain ⟨hold, hpc⟩ := hc
-  have others : ∀ j, j ≠ i → ¬ (s.pc j = .locked ∨ s.pc j = .sent ∨ s.pc j = .got) := by
+  have others : ∀ j, j ≠ i → ¬ (s.pc j = .locked ∨ s.pc j = .sent ∨ s.pc j = .got ∨ s.pc j = .relock) := by
     intro j e hj; have := h.lock j hj; rw [hold] at this; cases this; exact e rfl
   have hnil : outstanding c s = [] := by
     rcases h.out with h0 | ⟨j, _, hj, hrj⟩
@@ -256,20 +282,25 @@ theorem inv_release (c : Cfg) (s s' : St) (i : Nat) (h : Inv c s) (hs : step c s
     by_cases e : j = i
     · subst e; simp [upd_same] at hj
     · simp only [upd_other _ _ e] at hj; exact absurd (Or.inr (Or.inl hj)) (others j e)
-  · intro j hj
+  · intro j hj hej
     by_cases e : j = i
     · subst e
       simp only [upd_same] at hj
       rcases hj with hj | ⟨_, hr⟩
       · cases hj
-      · rcases hpc with hp | ⟨_, hr'⟩ | ⟨hp, hsn⟩
-        · exact h.gotOwn j (Or.inl hp)
+      · rcases hpc with hp | ⟨_, hr'⟩ | ⟨hp, _⟩
+        · have hne : ¬ (s.pc j = .locked) := by rw [hp]; simp
+          simp only [hne, if_false] at hej
+          exact h.gotOwn j (Or.inl hp) hej
         · rw [hr] at hr'; cases hr'
-        · -- a call that sends nothing reads nothing
-          exfalso
-          unfold Cfg.sends at hsn; unfold Cfg.reads at hr
-          cases hk : c.kind j <;> simp [hk] at hsn hr
-    · simp only [upd_other _ _ e] at hj; exact h.gotOwn j hj
+        · -- a call that returns from `locked` (local rejection, dead socket) returns an error
+          simp [hp, upd_same] at hej
+    · simp only [upd_other _ _ e] at hj
+      have hej' : s.err j = false := by
+        by_cases hl : s.pc i = .locked
+        · simpa [hl, upd_other _ _ e] using hej
+        · simpa [hl] using hej
+      exact h.gotOwn j hj hej'
   · exact h.tr
   · exact h.trOwn
 
@@ -315,6 +346,7 @@ theorem rem_locked : rem .locked = 6 := rfl
 theorem rem_sent : rem .sent = 4 := rfl
 theorem rem_got : rem .got = 2 := rfl
 theorem rem_done : rem .done = 0 := rfl
+theorem rem_relock : rem .relock = 3 := rfl
 
 theorem total_upd (f : Nat → PC) (i : Nat) (v : PC) (n : Nat) (h : i < n) :
     total (fun j => rem (upd f i v j)) n + rem (f i) = total (fun j => rem (f j)) n + rem v := by
@@ -342,10 +374,19 @@ theorem measure_step (c : Cfg) (s s' : St) (l : Lbl) (h : Inv c s) (hs : step c 
     Model.Locks.measure c s' < Model.Locks.measure c s := by
   cases l with
   | acquire i =>
-    simp only [step] at hs; split at hs <;> simp at hs
-    rename_i hc; subst hs
-    have := total_upd s.pc i .locked c.n hc.1
-    simp only [Model.Locks.measure]; rw [hc.2.1] at this; simp only [rem_idle, rem_locked, rem_sent, rem_got, rem_done] at this; omega
+    simp only [step] at hs
+    split at hs
+    · rename_i hc
+      simp at hs; subst hs
+      have := total_upd s.pc i .locked c.n hc.1
+      simp only [Model.Locks.measure]; rw [hc.2.1] at this; simp only [rem_idle, rem_locked, rem_sent, rem_got, rem_done] at this; omega
+    · split at hs
+      · rename_i _ hc
+        simp at hs; subst hs
+        have hn := h.range i (by rw [hc.1]; simp)
+        have := total_upd s.pc i .got c.n hn
+        simp only [Model.Locks.measure]; rw [hc.1] at this; simp only [rem_relock, rem_got] at this; omega
+      · simp at hs
   | send i =>
     simp only [step] at hs; split at hs <;> simp at hs
     rename_i hc; subst hs
@@ -364,11 +405,15 @@ theorem measure_step (c : Cfg) (s s' : St) (l : Lbl) (h : Inv c s) (hs : step c 
     simp only [step] at hs
     split at hs
     · rename_i hc
-      split at hs <;> simp at hs
+      split at hs <;> simp only [Option.some.injEq, reduceCtorEq] at hs
       subst hs
       have hn := h.range i (by rw [hc.1]; simp)
-      have := total_upd s.pc i .got c.n hn
-      simp only [Model.Locks.measure]; rw [hc.1] at this; simp only [rem_idle, rem_locked, rem_sent, rem_got, rem_done] at this; omega
+      simp only [Model.Locks.measure]
+      split
+      · have := total_upd s.pc i .relock c.n hn
+        rw [hc.1] at this; simp only [rem_sent, rem_relock] at this; omega
+      · have := total_upd s.pc i .got c.n hn
+        rw [hc.1] at this; simp only [rem_sent, rem_got] at this; omega
     · simp at hs
   | release i =>
     simp only [step] at hs; split at hs <;> simp at hs
@@ -401,5 +446,106 @@ theorem measure_init (c : Cfg) : Model.Locks.measure c init = 8 * c.n := by
   show total (fun _ => 8) c.n + 0 = 8 * c.n
   rw [this c.n]; rfl
 
+/-! ## the fault invariant: who has an error, and why
+
+Kept apart from `Inv` (which is about the lock and the wire): `err` is set only by the receipt of a faulty reply and by
+a return from `locked` (local rejection, dead socket); a caller with a faulty reply never has a value; the socket is
+closed only if the configuration has a closing fault; program counter `relock` only exists under the mutation. -/
+
+structure FInv (c : Cfg) (s : St) : Prop where
+  errPc : ∀ i, s.err i = true → s.pc i = .got ∨ s.pc i = .relock ∨ s.pc i = .done
+  errWhy : ∀ i, s.err i = true → c.faulty i = true ∨ Ev.req i ∉ s.trace
+  errClosed : ∀ i, s.err i = true → c.faulty i = true ∨ c.sends i = false ∨ s.closed = true
+  reqPc : ∀ i, Ev.req i ∈ s.trace → s.pc i = .sent ∨ s.pc i = .got ∨ s.pc i = .relock ∨ s.pc i = .done
+  closedWhy : s.closed = true → ∃ k, c.closes k = true
+  faultyErr : ∀ i, c.faulty i = true → (s.pc i = .got ∨ s.pc i = .relock ∨ s.pc i = .done) → s.err i = true
+  faultyNoVal : ∀ i, c.faulty i = true → s.got i = none
+  relockPc : ∀ i, s.pc i = .relock → c.relock = true ∧ c.faulty i = true
+  pcReq : ∀ i, (s.pc i = .sent ∨ s.pc i = .got ∨ s.pc i = .relock) → Ev.req i ∈ s.trace
+  doneNoReq : ∀ i, s.pc i = .done → Ev.req i ∉ s.trace → s.err i = true
+
+theorem finv_init (c : Cfg) : FInv c init := by
+  refine ⟨?_, ?_, ?_, ?_, ?_, ?_, ?_, ?_, ?_, ?_⟩ <;> simp [init]
+
+theorem faulty_reads {c : Cfg} {i : Nat} (h : c.faulty i = true) : c.reads i = true := by
+  unfold Cfg.faulty at h; simp at h; exact h.1
+
+theorem reads_sends {c : Cfg} {i : Nat} (h : c.reads i = true) : c.sends i = true := by
+  unfold Cfg.reads at h; unfold Cfg.sends
+  cases hk : c.kind i <;> simp [hk] at h ⊢
+
+theorem closes_faulty {c : Cfg} {i : Nat} (h : c.closes i = true) : c.faulty i = true := by
+  unfold Cfg.closes at h; unfold Cfg.faulty
+  cases hf : c.fault i <;> simp [hf] at h ⊢ <;> exact h
+
+theorem finv_step (c : Cfg) (s s' : St) (l : Lbl) (h : Inv c s) (f : FInv c s) (hs : step c s l = some s') :
+    FInv c s' := by
+  cases l with
+  | acquire i =>
+    simp only [step] at hs
+    split at hs
+    · rename_i hc; simp at hs; subst hs
+      refine ⟨?_, ?_, ?_, ?_, ?_, ?_, ?_, ?_, ?_, ?_⟩
+      all_goals grind [upd, FInv]
+    · split at hs
+      · rename_i _ hc
+        have := h.lock i (Or.inr (Or.inr (Or.inr hc.1)))
+        rw [hc.2] at this; cases this
+      · simp at hs
+  | send i =>
+    simp only [step] at hs
+    split at hs <;> simp at hs
+    rename_i hc; subst hs
+    refine ⟨?_, ?_, ?_, ?_, ?_, ?_, ?_, ?_, ?_, ?_⟩
+    all_goals grind [upd, FInv]
+  | peer =>
+    simp only [step] at hs
+    split at hs
+    · simp at hs
+    · simp at hs; subst hs
+      refine ⟨?_, ?_, ?_, ?_, ?_, ?_, ?_, ?_, ?_, ?_⟩
+      all_goals grind [upd, FInv]
+  | recv i =>
+    simp only [step] at hs
+    split at hs
+    · rename_i hc
+      split at hs
+      · simp at hs
+      · simp only [Option.some.injEq] at hs; subst hs
+        refine ⟨?_, ?_, ?_, ?_, ?_, ?_, ?_, ?_, ?_, ?_⟩
+        all_goals grind [upd, FInv]
+    · simp at hs
+  | release i =>
+    simp only [step] at hs
+    split at hs <;> simp at hs
+    rename_i hc; subst hs
+    have := @faulty_reads c i
+    have := @reads_sends c i
+    refine ⟨?_, ?_, ?_, ?_, ?_, ?_, ?_, ?_, ?_, ?_⟩
+    all_goals grind [upd, FInv]
+
+theorem finv_run (c : Cfg) (s s' : St) (ls : List Lbl) (h : Inv c s) (f : FInv c s) (hr : run c s ls = some s') :
+    FInv c s' := by
+  induction ls generalizing s with
+  | nil => simp [run] at hr; subst hr; exact f
+  | cons l ls ih =>
+    simp only [run] at hr
+    split at hr
+    · simp at hr
+    · rename_i s1 hs1; exact ih s1 (inv_step c s s1 l h hs1) (finv_step c s s1 l h f hs1) hr
+
+theorem finv_reachable (c : Cfg) (ls : List Lbl) (s : St) (hr : run c init ls = some s) : FInv c s :=
+  finv_run c init s ls (inv_init c) (finv_init c) hr
+
+/-- `run` over a concatenation -/
+theorem run_append (c : Cfg) (s : St) (l1 l2 : List Lbl) :
+    run c s (l1 ++ l2) = (run c s l1).bind fun s1 => run c s1 l2 := by
+  induction l1 generalizing s with
+  | nil => simp [run]
+  | cons l ls ih =>
+    simp only [List.cons_append, run]
+    cases step c s l with
+    | none => simp
+    | some s1 => simpa using ih s1
 
 end Lemmas.Locks
